@@ -1,4 +1,6 @@
 #![allow(clippy::all)]
-//! Shared harness pieces for the model crate: a deterministic market (`market`).
+//! Shared harness pieces for the model crate: a deterministic market (`market`) and the `mkt`
+//! line-protocol engine over it (`mkt`).
 pub mod market;
+pub mod mkt;
 pub mod perp;
